@@ -833,6 +833,7 @@ func TestC02_reductions(t *testing.T) {
 		r := recv.NewMut(3)
 		var got, want float64
 		var desc string
+		wide := false
 		rel := 64 * math.Max(recv.Eps(), et.Eps())
 		var perr string
 		switch name {
@@ -900,11 +901,24 @@ func TestC02_reductions(t *testing.T) {
 		case "SmoothMax", "LogSmoothMax":
 			xs := draw("x", n)
 			alpha := float64(rapid.IntRange(-16, 16).Draw(t, "alpha")) / 4
+			// one SmoothMax case in three spreads the arguments so far that exp(alpha*x_i) over- or
+			// underflows unless the implementation shifts by max(alpha*x_i) (seed C02-5: the shift
+			// of one scalar type was max(x_i)*alpha, wrong for negative alpha)
+			wide = name == "SmoothMax" && rapid.IntRange(0, 2).Draw(t, "wide") == 0
+			if wide {
+				for i := range xs {
+					xs[i] = float64(rapid.IntRange(-1200, 1200).Draw(t, "xw"))
+				}
+			}
 			desc = fmt.Sprintf("alpha=%v %v", alpha, xs)
+			shift := math.Inf(-1)
+			for _, x := range xs {
+				shift = math.Max(shift, alpha*x)
+			}
 			num, den := 0.0, 0.0
 			for _, x := range xs {
-				num += x * math.Exp(alpha*x)
-				den += math.Exp(alpha * x)
+				num += x * math.Exp(alpha*x-shift)
+				den += math.Exp(alpha*x - shift)
 			}
 			want = num / den
 			rel = 4096 * math.Max(recv.Eps(), et.Eps())
@@ -915,7 +929,7 @@ func TestC02_reductions(t *testing.T) {
 			} else {
 				tmp := [3]Scalar{recv.NewMut(0), recv.NewMut(0), recv.NewMut(0)}
 				perr = call(func() { r.LogSmoothMax(v, ConstFloat64(alpha), tmp) })
-				if perr == "" && !model.Close(r.GetFloat64(), want, rel, 0) && model.Close(r.GetFloat64(), (1+num)/den, rel, 0) {
+				if perr == "" && !model.Close(r.GetFloat64(), want, rel, 0) && model.Close(r.GetFloat64(), (math.Exp(-shift)+num)/den, rel, 0) {
 					c := obs.Begin("reductions", "LogSmoothMax recv=%s elem=%s sparse=%v %s", recv, et, sparse, desc)
 					c.Class("op=LogSmoothMax")
 					if c.Known("C02/logsmoothmax-accumulator-starts-at-log1") {
@@ -928,6 +942,9 @@ func TestC02_reductions(t *testing.T) {
 		c := obs.Begin("reductions", "%s recv=%s elem=%s sparse=%v %s", name, recv, et, sparse, desc)
 		c.Classf("op=%s", name)
 		c.Classf("sparse=%v", sparse)
+		if wide {
+			c.Class("smoothmax=wide-spread")
+		}
 		c.NT(n >= 2)
 		if perr != "" {
 			t.Fatalf("%s panicked: %s", c.Desc(), perr)
